@@ -336,6 +336,21 @@ pub fn check(case: &Case, idx: &[Option<Meta>], exp: &Exp, rec: &RunRec) -> Vec<
             }
         }
         if !exp.panics {
+            // "the caller continues only after every thread of the step has finished": the caller's continuation is
+            // either the code after the macro (Post) or the next step (its captures run on the caller, its chains are
+            // spawned by the caller) - nothing of step k+1 may be logged before the last chain event of a step-k thread
+            for (k, st) in exp.steps.iter().enumerate() {
+                if st.brs.len() < 2 {
+                    continue;
+                }
+                let last_k = log.iter().filter(|e| is_step_event(e) && matches!(e.k, K::Call | K::Eval | K::Arrive | K::Pass) && step_of(idx, e.id).map(|(s, _)| s == k).unwrap_or(false)).map(|e| e.seq).max();
+                let first_next = log.iter().filter(|e| is_step_event(e) && step_of(idx, e.id).map(|(s, _)| s > k).unwrap_or(false)).min_by_key(|e| e.seq);
+                if let (Some(l), Some(f)) = (last_k, first_next) {
+                    if f.seq < l {
+                        note(&mut v, "C08", format!("the caller went on to a later step (event {:?}({}) at seq {}) before the last event of a step-{} thread (seq {})", f.k, f.id, f.seq, k, l));
+                    }
+                }
+            }
             if let Some(p) = log.iter().find(|e| e.k == K::Post) {
                 if let Some(late) = log.iter().find(|e| e.seq > p.seq && is_step_event(e)) {
                     note(&mut v, "C08", format!("the caller continued (Post at seq {}) before event {:?}({}) of a step thread at seq {}", p.seq, late.k, late.id, late.seq));
